@@ -252,6 +252,33 @@ static void run_op(xmpp_ctx_t *ctx, char *op)
         text = strcmp(f[5], "-") ? unhex_str(f[5]) : NULL;
         put_handle(j, xmpp_stanza_reply_error(s, ty, cond, text));
         free(ty); free(cond); free(text);
+    } else if (!strcmp(f[0], "helper") && nf == 3) {
+        /* helper <k> <hex arg|->: a public helper that returns an allocated result; the result is given back with
+           xmpp_free() as documented.  A block that did not come from the context's allocator shows as ALLOCERR. */
+        int k = atoi(f[1]);
+        char *arg = strcmp(f[2], "-") ? unhex_str(f[2]) : strdup("");
+        size_t alen = strlen(arg);
+        char *r = NULL;
+        unsigned char *bin = NULL;
+        size_t blen = 0;
+        tok_begin();
+        switch (k) {
+        case 0: r = xmpp_base64_encode(ctx, (unsigned char *)arg, alen); break;
+        case 1: r = xmpp_base64_decode_str(ctx, arg, alen); break;
+        case 2: xmpp_base64_decode_bin(ctx, arg, alen, &bin, &blen); r = (char *)bin; break;
+        case 3: r = xmpp_sha1(ctx, (unsigned char *)arg, alen); break;
+        case 4: r = xmpp_jid_node(ctx, arg); break;
+        case 5: r = xmpp_jid_domain(ctx, arg); break;
+        case 6: r = xmpp_jid_resource(ctx, arg); break;
+        case 7: r = xmpp_jid_bare(ctx, arg); break;
+        case 8: r = xmpp_jid_new(ctx, arg, "example.com", "r"); break;
+        case 9: r = xmpp_uuid_gen(ctx); break;
+        case 10: r = xmpp_jid_new(ctx, NULL, arg, NULL); break;
+        default: break;
+        }
+        printf("h%d=%s", k, r ? "ok" : "null");
+        if (r) xmpp_free(ctx, r);
+        free(arg);
     } else
         BAD;
 done:
